@@ -373,7 +373,9 @@ func RunCase(c Case) (res Result) {
 		return cur.res
 	}
 	before := runtime.NumGoroutine()
-	func() {
+	finished := make(chan struct{})
+	go func() {
+		defer close(finished)
 		defer func() {
 			if r := recover(); r != nil {
 				if _, ok := r.(rejected); ok {
@@ -386,6 +388,17 @@ func RunCase(c Case) (res Result) {
 		}()
 		f()
 	}()
+	select {
+	case <-finished:
+	case <-time.After(20 * time.Second):
+		// the harness did not return: a deadlock (or a blocked-forever call) in the code under test
+		cur.mu.Lock()
+		r := cur.res
+		r.Panic = "vt: harness did not finish within 20s (deadlock?)"
+		r.Leaked = runtime.NumGoroutine() - before
+		cur.mu.Unlock()
+		return r
+	}
 	if cur.noLeak {
 		deadline := time.Now().Add(300 * time.Millisecond)
 		for runtime.NumGoroutine() > before && time.Now().Before(deadline) {
